@@ -774,7 +774,13 @@ class MementoFunctionHashRule(HashRule):
                 symbol=dep,
                 required=True,
                 root_fn=root_fn,
-                first_level=memento_fn is root_fn,
+                first_level=(
+                    memento_fn is root_fn
+                    # (the root may be a modifier clone of the registered function that its
+                    # own name resolves to)
+                    or memento_fn.qualified_name_without_version
+                    == root_fn.qualified_name_without_version
+                ),
                 package_scope=package_scope,
                 blacklist=blacklist,
             )
@@ -787,7 +793,13 @@ class MementoFunctionHashRule(HashRule):
                 symbol=dep,
                 required=False,
                 root_fn=root_fn,
-                first_level=memento_fn is root_fn,
+                first_level=(
+                    memento_fn is root_fn
+                    # (the root may be a modifier clone of the registered function that its
+                    # own name resolves to)
+                    or memento_fn.qualified_name_without_version
+                    == root_fn.qualified_name_without_version
+                ),
                 package_scope=package_scope,
                 blacklist=blacklist,
             )
